@@ -30,7 +30,9 @@ missing = object()
 
 re_trim = re.compile(r'($\s+|\s+^)', re.MULTILINE)
 
-EMPTY_DICT = Static(ast.Dict(keys=[], values=[]))
+# Not a ``Static`` (module-level) value: a template may write to the
+# dictionary bound to ``attrs``, so each use gets a new one.
+EMPTY_DICT = ast.Dict(keys=[], values=[])
 CANCEL_MARKER = ImportableMarker(__name__, "CANCEL")
 
 
@@ -1007,7 +1009,9 @@ class MacroProgram(ElementProgram):
         if not static_attrs:
             return
 
-        return Static(parse(repr(static_attrs)).body)
+        # A dictionary display (evaluated on each use): a value held at
+        # module level would be shared by all renderings and threads.
+        return parse(repr(static_attrs)).body
 
     def _maybe_trim(self, string):
         if self.trim_attribute_space:
